@@ -72,7 +72,9 @@ func buildWorker(race bool) string {
 		die2("overlay generation failed: %v\n%s", err, out)
 	}
 	bin := workerBin
-	if privateBin {
+	if mutMode {
+		bin = filepath.Join(buildDir, "simworker") // never the shared binary
+	} else if privateBin {
 		// a check run keeps its own copy: a concurrent build must not swap the binary under a running sweep
 		bin = fmt.Sprintf("%s.%d", workerBin, os.Getpid())
 	}
@@ -231,6 +233,8 @@ func configValue(c *cf.Case, key string) string {
 		return c.Scenario
 	case "sync":
 		return strconv.FormatBool(c.Config.Sync)
+	case "metaRetryMax":
+		return strconv.Itoa(c.Config.MetaRetryMax)
 	}
 	return ""
 }
